@@ -95,7 +95,17 @@ def doRun (st : McSt) (ws : List String) (fromStates : Bool) : McSt × List Stri
           match runImpl cfgRef h preds (fun _ => 0) strat fuelDefault sys cbRef acc0 with
           | none => ("fuel", [], [])
           | some (r, acc', _) => (showRes r, sortStrs (acc'.evald.map projSys), acc'.collected)
-      ([s!"vres={vres} rres={rres}"] ++ vset.map ("V " ++ ·) ++ (if rres == "ok" then rset.map ("R " ++ ·) else []),
+      -- (c) on request: the same enumeration with the identical-message reduction restricted to flights with equal options
+      let wlines : List String :=
+        if !st.refrelax || fromStates then [] else
+          let r0 : Option (RS × Mode) := st.cbs.foldl (fun rm cb => rm.bind (fun x => rApplyCb h x cb))
+            (some ({ (rInit sys) with trace := (rInit sys).trace ++ [LogE.started] }, sys.mode))
+          match r0 with
+          | Option.none => ["wres=cb-impossible"]
+          | some (r, mode) =>
+            let out := refEnum h mode topo invR goalR pruneR 6000 r sys.depth ({} : EnumOut) true true
+            [s!"wres={if out.capped then "capped" else if out.failed then "fail" else "ok"}"] ++ out.seen.map ("W " ++ ·)
+      ([s!"vres={vres} rres={rres}"] ++ vset.map ("V " ++ ·) ++ (if rres == "ok" then rset.map ("R " ++ ·) else []) ++ wlines,
        if vres == "ok" then vcol else [])
   let refLines := refOut.1
   let isOk := res == "ok"
@@ -117,6 +127,7 @@ def mcLine (st : McSt) (line : String) : McSt × List String :=
   | ["end"] => (st, ["end"])
   | ["cfg", "reference"] => ({ st with cfg := { st.cfg with overrideLeavesOld := false } }, [])
   | ["refenum"] => ({ st with refenum := true }, [])
+  | ["refrelax"] => ({ st with refenum := true, refrelax := true }, [])
   | ["preds"] => ({ st with preds := true }, [])
   | ["node", n] => ({ st with nodes := st.nodes ++ [name! n] }, [])
   | "proc" :: p :: n :: flags =>
